@@ -77,7 +77,10 @@ func c07Decode(c *Ctx, label string, holder reflect.Value, dst interface{}, doc 
 		err, pan = safeDo(func() error { return json.Unmarshal(input, dst) })
 	}
 	verdict := ""
-	if pan != "" {
+	if pe := json.VerifPoolErrors(); len(pe) > 0 {
+		// the next decode of this slice type would store past its working array
+		verdict = "working-array pool: " + strings.Join(pe, "; ")
+	} else if pan != "" {
 		verdict = "panic " + pan
 	} else if bad := c07CheckCanaries(holder); bad != "" {
 		verdict = bad
@@ -151,6 +154,72 @@ func runC07(c *Ctx) {
 
 	if c.IsWorker() {
 		return
+	}
+	// the slice decoder's pooled working arrays: arrays of 0..9 elements (the working array doubles at
+	// 2, 4, 8) cut at every byte and with every byte replaced, through Unmarshal and through the Decoder
+	// (whole, and one byte per read), each followed by a well-formed longer document for the same type;
+	// after every call no pooled header may claim more than its array holds, and the second result is
+	// encoding/json's
+	{
+		json.VerifPoolErrors()
+		type pc struct {
+			name string
+			mk   func() interface{}
+			elem string
+		}
+		pcs := []pc{
+			{"[]int", func() interface{} { return new([]int) }, "5"},
+			{"[]string", func() interface{} { return new([]string) }, `"s"`},
+			{"[][1]int64", func() interface{} { return new([][1]int64) }, "[5]"},
+			{"[]*int", func() interface{} { return new([]*int) }, "5"},
+			{"[][]int", func() interface{} { return new([][]int) }, "[1,2,3]"},
+			{"[]struct", func() interface{} { return new([]struct{ A, B int }) }, `{"A":1,"B":2}`},
+			{"[]map", func() interface{} { return new([]map[string]int) }, `{"a":1}`},
+			{"[]interface{}", func() interface{} { return new([]interface{}) }, "5"},
+		}
+		n := 0
+		for _, p := range pcs {
+			for ln := 0; ln <= 9; ln++ {
+				doc := "[" + strings.TrimSuffix(strings.Repeat(p.elem+",", ln), ",") + "]"
+				follow := "[" + strings.TrimSuffix(strings.Repeat(p.elem+",", ln+3), ",") + "]"
+				var inputs [][]byte
+				for cut := 0; cut <= len(doc); cut++ {
+					inputs = append(inputs, []byte(doc[:cut]))
+				}
+				for pos := 0; pos < len(doc); pos++ {
+					for _, r := range []byte("x],") {
+						m := []byte(doc)
+						m[pos] = r
+						inputs = append(inputs, m)
+					}
+				}
+				for _, in := range inputs {
+					for mode := 0; mode < 3; mode++ {
+						n++
+						dst := p.mk()
+						var err error
+						var pan string
+						switch mode {
+						case 0:
+							err, pan = safeDo(func() error { return json.Unmarshal(in, dst) })
+						case 1:
+							err, pan = safeDo(func() error { return json.NewDecoder(bytes.NewReader(in)).Decode(dst) })
+						default:
+							err, pan = safeDo(func() error { return json.NewDecoder(&chunkReader{data: in, size: 1}).Decode(dst) })
+						}
+						pe := json.VerifPoolErrors()
+						g2, s2 := p.mk(), p.mk()
+						e2, pan2 := safeDo(func() error { return json.Unmarshal([]byte(follow), g2) })
+						stdjson.Unmarshal([]byte(follow), s2)
+						pe = append(pe, json.VerifPoolErrors()...)
+						ok := len(pe) == 0 && pan == "" && pan2 == "" && e2 == nil && reflect.DeepEqual(g2, s2)
+						c.Oracle(fmt.Sprintf("pool-invariant/%s/mode%d", p.name, mode), fmt.Sprintf("%q then %s", in, follow),
+							fmt.Sprintf("pool=%v err=%s panic=%s%s second err=%v", pe, errT(err), pan, pan2, e2), "pooled headers consistent, second result as encoding/json", ok, "")
+					}
+				}
+			}
+		}
+		c.Rep.Exhaustive = append(c.Rep.Exhaustive, fmt.Sprintf("%d truncations / single-byte replacements of arrays of 0..9 elements x 8 slice types x 3 modes, each followed by a longer well-formed array", n))
 	}
 	// every field kind x tag (plain, omitempty, string, both) x position, between canaries: null, the
 	// quoted null, a fitting value and a wrong one, through Unmarshal and through the Decoder
